@@ -234,6 +234,9 @@ class FakeDecimalModule:
             raise decimal.InvalidOperation("stub: not a number")
         return self.value
 
+    def __getattr__(self, name):
+        return getattr(decimal, name)
+
 
 DEC_RULES = {"": [(Fraction(-9999999999999999999999999999999, 10 ** 12), Fraction(9999999999999999999999999999999, 10 ** 12))],
              "0...299.99": [(Fraction(0), Fraction(29999, 100))],
@@ -433,6 +436,10 @@ class FakeTimeModule:
         if self.fail:
             raise ValueError("stub: does not match")
         return self.token
+
+    def __getattr__(self, name):
+        import time as _real_time
+        return getattr(_real_time, name)
 
 
 def strptime_format_oracle(rule):
